@@ -190,6 +190,27 @@ def gen_filter(rng, tree, kind):
         return d
     f = {"created_after": None, "created_before": None, "modified_after": None, "modified_before": None,
          "folder_paths": [], "path_patterns": [], "extensions": []}
+    if kind == "edge":
+        # one bound placed exactly on (or one microsecond next to) the timestamp of one file, nothing else
+        fld = rng.choice(["created", "modified"])
+        own = []
+
+        def coll2(t):
+            for n in t:
+                if n["t"] == "file" and isinstance(stamp_exact(n[fld]), Fraction):
+                    own.append(n[fld])
+                elif n["t"] == "folder":
+                    coll2(n["ch"])
+        coll2(tree)
+        if own:
+            stamps[:] = [rng.choice(own)]
+            d = None
+            for _ in range(20):
+                d = bound()
+                if abs(dt_exact(d) - stamp_exact(stamps[0])) <= Fraction(1, 10 ** 6):
+                    break
+            f[fld + "_" + rng.choice(["after", "before"])] = d
+        return f
     if kind in ("dates", "mixed", "naive"):
         for k in ("created_after", "created_before", "modified_after", "modified_before"):
             if rng.random() < (0.45 if kind != "mixed" else 0.25):
@@ -424,7 +445,9 @@ def ref_matches(f, m):
             return False
         v = stamp_exact(field)
         if v is None:
-            return False
+            # not a Graph-format timestamp: the property is silent (datetime.fromisoformat may or may not accept
+            # it, e.g. "2024-01-15" parses to a naive datetime); the reference is undefined, D still compares
+            return "naive"
         for b in (after, before):
             if b is not None and ((dt_exact(b) == "naive") != (v == "naive")):
                 return "naive"
@@ -798,8 +821,10 @@ def run(ctx):
 
     ok1, _ = ctx.prove("C18/Props.v", ["C18/Proofs.vo"], expected=[
         "C18_walk_exact", "C18_list_all_files_exact", "C18_filtered_is_filter_of_walk", "C18_matches_spec",
-        "C18_fault_contained", "C18_retry_complete", "C18_responses_closed_always"])
-    ok2, _ = ctx.prove("C18/Inst.v", ["Gen/C18Tables.vo", "C18/Corr.vo"], expected=["C18_tables_wf", "C18_sample_run"])
+        "C18_bounds_inclusive_exclusive", "C18_floor_preserves_bounds", "C18_fault_contained", "C18_retry_complete",
+        "C18_responses_closed_always"])
+    ok2, _ = ctx.prove("C18/Inst.v", ["Gen/C18Tables.vo", "C18/Corr.vo", "C18/Proofs.vo"],
+                       expected=["C18_tables_wf", "C18_sample_wf", "C18_sample_run"])
 
     rec = Recorder()
     real_fn, real_dt = client_mod.fnmatch, client_mod.datetime
@@ -818,7 +843,7 @@ def run(ctx):
                 tree = gen_tree(rng, ids, sysfields, depth=rng.randint(0, 3), max_children=rng.choice([0, 2, 4, 6]), stamps_pool=pool)
             drive = rng.choice([None, None, "b!drv-1"])
             paging = gen_paging(rng, tree, base, SITE, rng.choice(["single", "one", "any", "any"]))
-            fk = rng.choice(["all", "all", "dates", "dates", "ext", "pat", "paths", "mixed", "mixed", "naive"]) if mode == "random" \
+            fk = rng.choice(["all", "all", "dates", "edge", "edge", "edge", "ext", "pat", "paths", "mixed", "mixed", "naive"]) if mode == "random" \
                 else rng.choice(["all", "all", "mixed", "paths"])
             flt = None if fk == "all" else gen_filter(rng, tree, fk)
             if flt is None:
